@@ -44,17 +44,30 @@ RULE = ('kinds: volt_tol = TOLERANCE STREAM, counted apart (never non-trivial, o
         'on 2-4 outputs with pairwise different amplitude / offset / transformation; resolutions 17..32 (must be rejected).  '
         'Pipelines (CAnd): the read-only result of time_windows_to_samples is fed to shrink_overlapping_windows; the result of '
         'a shrink is shrunk again (backends in place on one pair of arrays, twice).  ProgramEntry is built twice from the '
-        'same waveform objects / tuples / callables / Loop tree; the first entry must hold the same samples afterwards.')
+        'same waveform objects / tuples / callables / Loop tree; the first entry must hold the same samples afterwards.  '
+        'ROUND 4 (numerics off the dyadic grid): sample rates that are no powers of two (NP2_RATES: 3, 12, 5, 10, 49; 12/5, '
+        '6/5, 3/10, 7/10 with float(rate) < rate; 9/5, 18/5, 11/10, 13/10 with float(rate) > rate; 33/10, 1/3, 3/2, 5/4, 7/8): '
+        'get_sample_times grids compared BIT-EXACT with the binary64 number nearest to the exact rational k / rate (rate as '
+        'TimeType, plain float or int); ProgramEntry over hold tables whose jumps lie exactly on k / rate (staircase jumping on '
+        'every sample, random edge subsets, half-sample edges, linear pieces without transformation; thorough: every single '
+        'edge of 32 samples x every rate), compared exactly sample by sample (which side of the edge), markers on the very '
+        'sample; every sample case also observes get_sample_times on the same waveform objects (CAnd).  win_tol = second '
+        'TOLERANCE STREAM (counted apart): decimal begins / lengths / rates for time_windows_to_samples incl. products one ulp '
+        'beside an integer / half-way point; check_corr exact (the model rounds the product to binary64), check_spec tolerance '
+        '2^-30.  shrink_overlapping_windows is also called with use_numba=True / False.  Cases are shuffled before sharding.')
 TRUSTED = [
     'Coq 8.16.1 kernel + vm_compute (no native_compute)',
     'translator /verif/translate/py2gallina_c20.py (typed Z/Q/bool/arrays, canonical loop state by liveness; fail-closed; output '
     're-proved equal to the clean model on every run) incl. its reading of numpy calls: np.rint/round = half-even, '
     'np.uintNN(float) = truncation without wrap-around, float arithmetic read as exact rational arithmetic, declared '
     'element kinds of unannotated array parameters (GEN table in the harness)',
-    'numpy: elementwise float arithmetic is exact on the generated (dyadic) inputs; rint = half-to-even; searchsorted; '
-    'binary64 rounding itself is NOT modelled',
+    'numpy: elementwise float arithmetic is exact on the generated (dyadic) inputs of the exact streams; rint = half-to-even; '
+    'searchsorted; binary64 rounding is modelled (Model.b64, proved equal to Flocq round-to-nearest-even) only for the sample '
+    'grid and the products of the decimal window stream: there numpy / CPython multiplication and division are trusted to '
+    'be correctly rounded IEEE operations',
     'Waveform.get_sampled is the sampling function of a waveform (its own contract is property C08); the harness samples '
-    'it on its own exact grid k/rate and hands the values to the model',
+    'it on its own grid float(Fraction(k) / rate) (CPython int / int true division is correctly rounded; = k / rate for dyadic '
+    'rates) and hands the values to the model',
     'harness: generators, exact float->rational conversion (as_integer_ratio), Gallina printers; the argument snapshots '
     '(numpy array -> element kind code + exact values) and np.shares_memory',
     'store16 (codes of 17..30 bit resolutions as stored by the INTERNAL variants = code mod 2^16) is the observed behaviour of '
@@ -68,7 +81,13 @@ ASSUMPTIONS = [
     'window begins and lengths are non-negative (negative values overflow uint64 differently in the two variants)',
     'begins/lengths arrays have equal length; integer windows are int64/uint64 arrays',
     'average_windows: time array sorted (documented precondition), no NaN',
-    'sample rate and amplitudes are powers of two in the sampling cases so that float division is exact',
+    'amplitudes are powers of two in the sampling cases so that the division by the amplitude is exact; sample rates: powers '
+    'of two AND (round 4) the non-power-of-two rates of NP2_RATES; waveforms sampled at those rates are piecewise constant '
+    '(hold tables) or have linear pieces without transformation / offset, so that everything after the grid is exact',
+    'sample grid: rate numerator < 2^53 and n * denominator <= 2^53 (guard of the repaired get_sample_times; beyond it the old '
+    'formula k / float(rate) is used, modelled as grid_old, not generated); plain float rates only where the rate is a '
+    'binary64 number',
+    'decimal window stream: begins, lengths >= 0, products below 2^22 samples',
     'binary64 theorems (C20_float_*): Flocq format FLT(-1074, 53), round-to-nearest-even, overflow not modelled; they rest '
     'on the real-number axioms of the standard library (sig_forall_dec, sig_not_dec, functional_extensionality_dep, classic)',
     'tolerance stream: voltages stay 1e-6*amplitude away from the range ends (the float range test may go either way there)',
@@ -101,7 +120,7 @@ def pregen(ctx):
     return obs
 
 
-CHN = {'A': 1, 'B': 2, 'M': 3, 'N': 4, 0: 0, 'Z': 9}       # channel ids -> Z for the model
+CHN = {'A': 1, 'B': 2, 'M': 3, 'N': 4, 0: 0, 'Z': 9, -1: 5, -2: 6}       # channel ids -> Z for the model (hash(-1) == hash(-2))
 
 
 # ---------------------------------------------------------------------------------------------------------------------
@@ -274,6 +293,40 @@ def gen_win(rng, tier, out):
         out.append({'kind': 'win', 'sr': fs(sr), 'ws': [[fs(b), fs(l)] for b, l in ws]})
 
 
+def gen_win_tol(rng, tier, out):
+    """decimal stream for time_windows_to_samples: begins / lengths / sample rates are the binary64 values of decimal strings
+    (the model gets exactly those values and rounds the product to binary64 like the code: check_corr is EXACT); check_spec is
+    the tolerance specification.  Includes lengths N / rate and begins (N + 1/2) / rate computed in floating point, i.e.
+    products that land on or one ulp beside an integer / a half-way point."""
+    n = {'quick': 60, 'thorough': 1500}[tier]
+    rates = ['1.2', '2.4', '0.1', '10', '100', '3', '0.3', '1e-3', '1.8', '2.5', '0.7', '1.1']
+    for _ in range(n):
+        sr = float(rng.choice(rates))
+        ws = []
+        for _ in range(rng.randint(1, 6)):
+            r = rng.random()
+            if r < 0.3:
+                b = (rng.randint(0, 400) + 0.5) / sr
+            elif r < 0.5:
+                b = rng.randint(0, 400) / sr
+            else:
+                b = round(rng.uniform(0, 300), rng.choice([1, 2, 3]))
+            r = rng.random()
+            if r < 0.4:
+                l = rng.randint(0, 300) / sr
+            elif r < 0.5:
+                l = float(rng.randint(0, 300)) * (1 / sr)
+            else:
+                l = round(rng.uniform(0, 200), rng.choice([1, 2, 3]))
+            ws.append((b, l))
+        r = rng.random()
+        if r < 0.3:
+            ws.sort()
+        elif r < 0.4 and len(ws) >= 2:
+            ws[-1] = (ws[0][0], ws[-1][1])          # tie
+        out.append({'kind': 'win_tol', 'sr': fs(F(sr)), 'ws': [[fs(F(b)), fs(F(l))] for b, l in ws]})
+
+
 def shrink_universe(max_n, top):
     ws1 = [(b, l) for b in range(top + 1) for l in range(top + 1 - b)]
     for k in range(0, max_n + 1):
@@ -389,7 +442,7 @@ NP2_RATES = [F(3), F(12), F(5), F(10), F(49), F(12, 5), F(6, 5), F(3, 10), F(7, 
 
 def gen_times_np2(rng, tier, out):
     for rate in NP2_RATES:                                        # deterministic: one long grid per rate
-        n = 100 if rate == 49 else 40
+        n = 100 if rate in (49, F(9, 5)) else 40
         out.append({'kind': 'times', 'rate': fs(rate), 'durs': [fs(F(n) / rate)]})
     for _ in range({'quick': 40, 'thorough': 600}[tier]):
         rate = rng.choice(NP2_RATES)
@@ -433,7 +486,7 @@ def gen_sample_np2(rng, tier, out):
     plain = lambda ch: {'ch': ch, 'T': None, 'amp': '1', 'off': '0'}
     # deterministic: a staircase that jumps on EVERY sample, channel + marker derived from it
     for rate in NP2_RATES:
-        n = 100 if rate == 49 else 40
+        n = 64 if rate in (49, F(9, 5)) else 24
         wf = {'dur': fs(F(n) / rate), 'chs': [['A', _staircase(rate, n, False)], ['M', _staircase(rate, n, True)]]}
         case(rate, [wf], [plain('A'), {'ch': 'A', 'T': ['aff', '2', '1'], 'amp': '2', 'off': '1/2'}], ['M', 'A'])
     if tier == 'thorough':           # small scope, exhaustive: one single jump at every k of 32 samples, every rate
@@ -490,7 +543,7 @@ def gen_wf(rng, rate):
     nsamp = rng.randint(1, 7)
     dur = F(nsamp) / rate
     chs = {}
-    names = rng.choice([['A'], ['A', 'M'], ['A', 'B', 'M'], ['A', 'B', 'M', 'N'], [0, 'A', 'M']])
+    names = rng.choice([['A'], ['A', 'M'], ['A', 'B', 'M'], ['A', 'B', 'M', 'N'], [0, 'A', 'M'], [-1, -2, 'A']])
     for c in names:
         mk = c in ('M', 'N')
         if rng.random() < 0.4:
@@ -591,6 +644,13 @@ def decorate(rng, c):
             kinds += ['i8', 'i8', 'i4']
         c.setdefault('dtype', rng.choice(kinds))
         c.setdefault('intscalars', rng.random() < 0.25)
+        if not c['intscalars']:        # amplitude / offset as numpy scalars (round 4; only kinds in which they are exact)
+            sk = ['float', 'float', 'float64']
+            if _bits_ok(c['amp']) and _bits_ok(c['off']) and volt_f4_ok(c):
+                sk.append('float32')
+            if _is_int(c['amp']) and _is_int(c['off']):
+                sk += ['int64'] + (['uint8'] if 0 <= F(c['off']) < 100 and F(c['amp']) < 100 else [])
+            c.setdefault('scalars', rng.choice(sk))
     if k == 'mono':
         kinds = ['f8', 'f8', 'f4'] + (['i8', 'i4', 'u8'] if all(_is_int(x) and F(x) >= 0 for x in c['xs']) else [])
         c.setdefault('dtype', rng.choice(kinds))
@@ -610,9 +670,15 @@ def decorate(rng, c):
         if all(_bits_ok(F(v) * n) for row in c['values'] for v in row for n in range(1, len(c['time']) + 2)):
             vk.append('f4')
         c.setdefault('vdtype', rng.choice(vk) if c.get('alias') != 'tv' else c['dtype'])
-    if k in ('volt', 'volt_tol', 'mono', 'win', 'shrink', 'avg'):
+    if k in ('volt', 'volt_tol', 'mono', 'win', 'win_tol', 'shrink', 'avg'):
         c.setdefault('ro', rng.random() < 0.3)
         c.setdefault('view', rng.random() < 0.25)
+    if k == 'shrink':
+        c.setdefault('use_numba', rng.choice([None, None, True, False]))     # backend selection argument of the public function
+    if k == 'times' and is_dyadic(c['rate']) and F(c['rate']).numerator < 2 ** 40 and not c.get('ratekind'):
+        # a plain float as sample rate (no numerator / denominator): get_sample_times keeps k / float(rate), which is the
+        # correctly rounded quotient because the rate IS a binary64 number (C20_grid_old_correct)
+        c['ratekind'] = rng.choice(['TimeType', 'TimeType', 'float', 'int' if _is_int(c['rate']) else 'float'])
     if k == 'nni':
         c.setdefault('tuple', rng.random() < 0.5)
     if k == 'times':
@@ -694,6 +760,7 @@ def gen_cases(rng, tier, ctx):
     gen_volt_tol(rng, tier, out)
     gen_mono(rng, tier, out)
     gen_win(rng, tier, out)
+    gen_win_tol(rng, tier, out)
     gen_shrink(rng, tier, out)
     gen_avg(rng, tier, out)
     gen_nni(rng, tier, out)
@@ -702,7 +769,9 @@ def gen_cases(rng, tier, ctx):
     gen_times_np2(rng, tier, out)
     gen_sample_np2(rng, tier, out)
     drng = __import__('random').Random(rng.getrandbits(64))
-    return [decorate(drng, c) for c in out]
+    out = [decorate(drng, c) for c in out]
+    drng.shuffle(out)       # the Coq shards are contiguous slices: mix the kinds so that no shard gets all the big literals
+    return out
 
 
 # ---------------------------------------------------------------------------------------------------------------------
@@ -838,7 +907,7 @@ def _twice1(watch_fn, go):
     return o1
 
 
-def _shrink_obs(P, bs, ls, own_copy=True):
+def _shrink_obs(P, bs, ls, own_copy=True, use_numba=None):
     """the three observations of shrink_overlapping_windows on begins/lengths; the in-place backends get copies (they are
     in place by contract) unless own_copy is False (then they work on the given objects)"""
     def backend(f):
@@ -851,7 +920,9 @@ def _shrink_obs(P, bs, ls, own_copy=True):
     def public():
         with warnings.catch_warnings(record=True) as rec:
             warnings.simplefilter('always')
-            b, l = P.shrink_overlapping_windows(bs, ls)
+            b, l = P.shrink_overlapping_windows(bs, ls) if use_numba is None else P.shrink_overlapping_windows(bs, ls, use_numba=use_numba)
+        if any(issubclass(w.category, P.WindowOverlapWarning) and 'measurement windows' not in str(w.message) for w in rec):
+            raise RuntimeError('WindowOverlapWarning without its text')
         if b is bs or l is ls:
             raise RuntimeError('shrink_overlapping_windows returned an argument object')
         warned = any(issubclass(w.category, P.WindowOverlapWarning) for w in rec)
@@ -870,6 +941,9 @@ def run_impl(case):
         amp, off, res = _fl(case['amp']), _fl(case['off']), case['res']
         if case.get('intscalars'):                 # amplitude / offset handed over as Python ints
             amp, off = (int(amp) if amp == int(amp) else amp), (int(off) if off == int(off) else off)
+        if case.get('scalars', 'float') != 'float':
+            amp, off = getattr(np, case['scalars'])(amp), getattr(np, case['scalars'])(off)
+            assert F(float(amp)) == F(case['amp']) and F(float(off)) == F(case['off'])
         vs = [_fl(v) for v in case['vs']]
 
         def mkargs(name):
@@ -901,7 +975,7 @@ def run_impl(case):
                 o['ret'] = bool(o['ret'])
             return o
         return _run3(mkargs, {'np': P._is_monotonic_numpy, 'loop': P._is_monotonic_numba, 'pub': P.is_monotonic}, call)
-    if k == 'win':
+    if k in ('win', 'win_tol'):
         sr = _fl(case['sr'])
 
         def mkargs(name):
@@ -943,7 +1017,7 @@ def run_impl(case):
             return [bs, ls], [bs, ls]
 
         def call(f, args, name):
-            return _outcome(_shrink_obs(P, args[0], args[1])[name])
+            return _outcome(_shrink_obs(P, args[0], args[1], use_numba=case.get('use_numba'))[name])
         obs = _run3(mkargs, {'np': None, 'loop': None, 'pub': None}, call)
         if all('ret' in obs[v] for v in ('np', 'loop', 'pub')) and obs['np'] == obs['loop'] == obs['pub']:
             # shrinking again what was shrunk (the backends IN PLACE on one pair of arrays, twice): nothing left to do
@@ -1016,8 +1090,11 @@ def run_impl(case):
         elif case.get('container') == 'single' and len(wfs) == 1:
             arg = wfs[0]                     # a bare waveform instead of a collection
 
+        rate_arg = {'float': lambda: float(rate), 'int': lambda: int(rate)}.get(
+            case.get('ratekind'), lambda: TimeType.from_fraction(rate.numerator, rate.denominator))()
+
         def go():
-            t, l = U.get_sample_times(arg, TimeType.from_fraction(rate.numerator, rate.denominator))
+            t, l = U.get_sample_times(arg, rate_arg)
             return [[vlib.frac_json(float(x)) for x in t], [int(x) for x in np.atleast_1d(l)]]
         return _twice1(lambda: [['0', str(len(wfs))] + [fs(F(int(w.duration.numerator), int(w.duration.denominator))) for w in wfs]
                                 + ['1' if a is b else '0' for a, b in zip(wfs, wfs0)]], lambda: _outcome(go))
@@ -1211,7 +1288,7 @@ def to_coq1(case, obs):
     k = case['kind']
     if _bad(obs):
         return 'CCrash'
-    if k in ('volt', 'volt_tol', 'mono', 'win', 'shrink', 'avg'):
+    if k in ('volt', 'volt_tol', 'mono', 'win', 'win_tol', 'shrink', 'avg'):
         if any(_bad(obs[v]) for v in ('np', 'loop', 'pub')):
             return 'CCrash'
     three = lambda p: ' '.join(p(obs[v]) for v in ('np', 'loop', 'pub'))
@@ -1222,10 +1299,11 @@ def to_coq1(case, obs):
         if any('err' in obs[v] for v in ('np', 'loop', 'pub')):
             return 'CCrash'
         return '(CMono %s %s)' % (glist(gQs, case['xs']), three(lambda o: gbool(o['ret'])))
-    if k == 'win':
+    if k in ('win', 'win_tol'):
         if any('err' in obs[v] for v in ('np', 'loop', 'pub')):
             return 'CCrash'
-        return '(CWin %s %s %s)' % (gQs(case['sr']), glist(g_qq, case['ws']), three(lambda o: glist(g_zz, o['ret'])))
+        return '(%s %s %s %s)' % ('CWin' if k == 'win' else 'CWinF', gQs(case['sr']), glist(g_qq, case['ws']),
+                                  three(lambda o: glist(g_zz, o['ret'])))
     if k == 'shrink':
         p = lambda o: g_out(o, lambda r: '(%s, %s)' % (glist(g_zz, r['ws']), gbool(r['shrank'])))
         return '(CShrink %s %s)' % (glist(g_zz, case['ws']), three(p))
@@ -1346,6 +1424,36 @@ def py_win(case, o):
         if sorted(got[i:j]) != sorted(want[i:j]):
             return 'windows %d..%d: got %s, want (sorted by begin, begin rounded half-even, length floored) %s' % (
                 i, j, got[i:j], want[i:j])
+        i = j
+    return None
+
+
+WIN_TOL = F(1, 2 ** 30)
+
+
+def py_win_tol(case, o):
+    """tolerance specification: ordered by begin (equal begins in any order); begin within 1/2 + 2^-30 of begin * rate; length L
+    with L <= length * rate + 2^-30 and length * rate - 2^-30 < L + 1"""
+    sr = F(case['sr'])
+    ws = [(F(b), F(l)) for b, l in case['ws']]
+    if 'err' in o:
+        return 'conversion raised'
+    got = [tuple(x) for x in o['ret']]
+    if len(got) != len(ws):
+        return 'number of windows changed'
+
+    def ok(w, g):
+        return (abs(g[0] - w[0] * sr) <= F(1, 2) + WIN_TOL and g[1] <= w[1] * sr + WIN_TOL and w[1] * sr - WIN_TOL < g[1] + 1)
+    order = sorted(range(len(ws)), key=lambda i: ws[i][0])
+    i = 0
+    while i < len(ws):
+        j = i
+        while j < len(ws) and ws[order[j]][0] == ws[order[i]][0]:
+            j += 1
+        grp = [ws[t] for t in order[i:j]]
+        if not any(all(ok(w, g) for w, g in zip(perm, got[i:j])) for perm in itertools.permutations(grp)):
+            return 'windows %d..%d: got %s for (begin, length) * rate = %s' % (
+                i, j, got[i:j], [(float(w[0] * sr), float(w[1] * sr)) for w in grp])
         i = j
     return None
 
@@ -1520,7 +1628,7 @@ def py_spec(case, obs):
 
 def py_spec1(case, obs):
     k = case['kind']
-    if _bad(obs) or (k in ('volt', 'volt_tol', 'mono', 'win', 'shrink', 'avg') and any(_bad(obs[v]) for v in ('np', 'loop', 'pub'))):
+    if _bad(obs) or (k in ('volt', 'volt_tol', 'mono', 'win', 'win_tol', 'shrink', 'avg') and any(_bad(obs[v]) for v in ('np', 'loop', 'pub'))):
         return 'implementation crashed or hung: %s' % (str(obs)[:300])
     if k == 'volt':
         r = py_volt(case, obs['pub'])
@@ -1548,6 +1656,12 @@ def py_spec1(case, obs):
             return r
         if not _variants_agree(obs):
             return 'the internal implementations of time_windows_to_samples disagree'
+    if k == 'win_tol':
+        r = py_win_tol(case, obs['pub'])
+        if r:
+            return r
+        if not _variants_agree(obs):
+            return 'the internal implementations of time_windows_to_samples disagree (decimal inputs)'
     if k == 'shrink':
         r = py_shrink(case, obs['pub'])
         if r:
@@ -1577,7 +1691,7 @@ def nontrivial(case, obs):
     k = case['kind']
     if k == 'volt':
         return len(case['vs']) >= 2
-    if k == 'volt_tol':
+    if k in ('volt_tol', 'win_tol'):
         return False          # tolerance stream: counted apart (histogram key volt_tol), never as an exact non-trivial case
     if k == 'mono':
         return len(case['xs']) >= 3
@@ -1605,7 +1719,7 @@ def histogram_keys(case, obs):
     keys = [k]
     if k in ('volt', 'volt_tol', 'shrink'):
         keys.append('%s:pub=%s' % (k, 'err' if 'err' in obs.get('pub', {}) else 'ok'))
-    if k in ('win', 'shrink'):
+    if k in ('win', 'win_tol', 'shrink'):
         ws = case['ws']
         n = len(ws)
         keys.append('%s:n=%d' % (k, min(n, 5)))
@@ -1616,7 +1730,7 @@ def histogram_keys(case, obs):
                 keys.append('shrink:zero-length')
         else:
             bs = [w[0] for w in ws]
-            keys.append('win:' + ('ties' if len(set(bs)) < len(bs) else 'distinct'))
+            keys.append(k + ':' + ('ties' if len(set(bs)) < len(bs) else 'distinct'))
     if k == 'avg':
         keys.append('avg:' + ('sorted-windows' if _avg_windows_sorted(case) else 'nested-or-unsorted'))
         keys.append('avg:nch=%d' % case['nch'])
@@ -1645,6 +1759,12 @@ def histogram_keys(case, obs):
         keys.append('%s:alias=%s' % (k, case['alias']))
     if case.get('container'):
         keys.append('%s:container=%s' % (k, case['container']))
+    if case.get('scalars', 'float') != 'float':
+        keys.append('%s:amp-off-as-np.%s' % (k, case['scalars']))
+    if case.get('ratekind'):
+        keys.append('times:rate-as-%s' % case['ratekind'])
+    if k == 'shrink' and case.get('use_numba') is not None:
+        keys.append('shrink:use_numba=%s' % case['use_numba'])
     if k == 'volt':
         keys.append('volt:offset%s0' % ('=' if F(case['off']) == 0 else '!='))
     if 'chain' in obs:
@@ -1668,9 +1788,10 @@ def classify(case, obs):
     if k == 'avg' and not _bad(obs) and all(not _bad(obs[v]) for v in ('np', 'loop', 'pub')):
         if not _avg_windows_sorted(case) and py_avg(case, obs['np']) is None and py_avg(case, obs['pub']) is None:
             return 'C20-average-loop-unsorted-windows'
-    if k == 'win' and not _bad(obs) and all(not _bad(obs[v]) and 'ret' in obs[v] for v in ('np', 'loop', 'pub')):
+    if k in ('win', 'win_tol') and not _bad(obs) and all(not _bad(obs[v]) and 'ret' in obs[v] for v in ('np', 'loop', 'pub')):
         bs = [w[0] for w in case['ws']]
-        if len(set(bs)) < len(bs) and all(py_win(case, obs[v]) is None for v in ('np', 'loop', 'pub')):
+        oracle = py_win if k == 'win' else py_win_tol
+        if len(set(bs)) < len(bs) and all(oracle(case, obs[v]) is None for v in ('np', 'loop', 'pub')):
             return 'C20-windows-tie-order'
     return None
 
@@ -1681,7 +1802,7 @@ def shrink(case, obs, ctx):
         o = run_impl(c)
         return (py_spec(c, o) is not None and classify(c, o) == classify(case, obs)), o
     cur, cur_obs = case, obs
-    key = {'volt': 'vs', 'mono': 'xs', 'win': 'ws', 'shrink': 'ws', 'avg': 'ws', 'times': 'durs'}.get(case['kind'])
+    key = {'volt': 'vs', 'mono': 'xs', 'win': 'ws', 'win_tol': 'ws', 'shrink': 'ws', 'avg': 'ws', 'times': 'durs'}.get(case['kind'])
     if key is None or py_spec(case, obs) is None:
         return case, obs
     changed = True
@@ -1776,15 +1897,25 @@ MANIFEST = {
                   'within 2^-30 of a half-way point.  uint16 result: storing is the identity for resolutions 1..16 and wraps above '
                   '(refuted monotonicity; the public function rejects > 16 since repair 4036b19).  Purity (arguments unchanged, '
                   'second call on the same objects = first call) is part of check_corr / check_spec for every routine, not a '
-                  'theorem (the models are pure functions).  Not translated: _average_windows_numba (needs while loops with a '
+                  'theorem (the models are pure functions).  ROUND 4: the sample grid in binary64.  Model.b64 (executable '
+                  'nearest-even rounding of a rational to binary64) is proved equal to Flocq\'s rounding operator '
+                  '(C20_b64_is_RN); "at the times k / sample rate" is defined as grid_time rate k = b64 (k / rate), one rounding '
+                  'of the exact quotient; proved: binary64 division of representable k and r gives it, k * (1 / r) does not '
+                  '(refuted at r = 3, k = 5, also on Flocq\'s operator), the pre-repair formula k / float(rate) is correct '
+                  'exactly for representable rates (refuted at 9/5, k = 3: one ulp low — finding of /repo, repaired in 168262d), '
+                  'the repaired get_sample_times (k * den / num) equals grid_time under its guard and so does every time the '
+                  'model of get_sample_times returns.  time_windows_to_samples on arbitrary binary64 inputs: model conv64 '
+                  '(product rounded to binary64), variants equal, within 2^-30 of the exact conversion for products up to 2^22, '
+                  'equal to it for representable products.  Not translated: _average_windows_numba (needs while loops with a '
                   'termination measure, lazily evaluated `and` whose right operand subscripts an array, tuple unpacking of '
                   '.shape, 2-D row views with broadcasting += and /=, NaN rows): its model avg_loop is tied to the code by '
                   'correspondence only.',
     'level_note': 'Trusted: Coq kernel, the C20 translator (incl. its reading of numpy calls and float arithmetic as exact '
                   'rationals), numpy elementwise float arithmetic on dyadic inputs, Waveform.get_sampled as the sampling '
                   'function, harness.  Models are tied to /repo by an exact correspondence check that calls both internal '
-                  'implementations of every routine and the public entry point; decimal (inexact) voltages run as a separate '
-                  'tolerance stream.',
+                  'implementations of every routine and the public entry point; decimal (inexact) voltages and decimal windows '
+                  'run as separate tolerance streams (windows: correspondence exact, specification with tolerance); sample grids '
+                  'are compared bit for bit.',
     'technique': 'Coq proof over hand-written + AST-translated kernels (text-independent simulation proofs), correspondence '
                  'check (vm_compute) against both numpy and loop variants, Flocq for the binary64 statements',
     'design_ref': 'DESIGN.md §5 C20',
